@@ -375,7 +375,8 @@ class Checker:
                 need = self.validator_ids(t)
                 raising = self.raising_validators(t)
                 if raising:
-                    if bool(ctx.seen_validators & raising):
+                    if bool(ctx.seen_validators & raising) or force_cond:
+                        # forced: the call returned, so the raising validator was never evaluated
                         self._advance(ctx)
                     return
                 if need - ctx.seen_validators and not force_cond:
@@ -414,7 +415,11 @@ class Checker:
     def _drive_rtc(self, until_tok=None, to_end=False):
         """Advance the reference as far as possible without new observations.
         until_tok: stop once a context for that token is current (and not yet begun)."""
+        spins = 0
         while True:
+            spins += 1
+            if spins > 100000:
+                self.rej("internal", "reference interpreter does not terminate (drive)")
             if getattr(self, "drain_failing", None) is not None or getattr(self, "drain_done", False):
                 return
             ctx = self.ctx
@@ -431,6 +436,8 @@ class Checker:
                 what = sorted(ctx.pending) or sorted(ctx.open)
                 if ctx.open:
                     self.rej("C03.no-interleave", f"event {ctx.event}/{ctx.tok} still has open callbacks {sorted(ctx.open)} in phase {ctx.phase}")
+                if not what:
+                    self.rej("internal", f"reference cannot progress in phase {ctx.phase} of {ctx.event}/{ctx.tok}")
                 self._missing(ctx, what)
                 continue
             return
